@@ -131,7 +131,25 @@ func TestC35_Ranking(t *testing.T) {
 		idx := rapid.Permutation(seqInts(40)).Draw(t, "which")[:n]
 		order2 := rapid.Permutation(append([]int{}, idx...)).Draw(t, "order2")
 		seed := rapid.Int64().Draw(t, "seed")
-		build := func(order []int, reAdd bool) (*node.Pool, *Round) {
+		// the second node reaches the seed through a generated earlier life of the same round: other seeds from
+		// VRF attempts, round restarts after timeouts, a seed forced by a notarized block
+		type priorStep struct {
+			Kind string
+			Seed int64
+		}
+		var prior []priorStep
+		finalByBlock := false
+		if seed != 0 {
+			for i, k := 0, rapid.SampledFrom([]int{0, 1, 2, 0, 3, 4}).Draw(t, "priorSteps"); i < k; i++ {
+				st := priorStep{Kind: rapid.SampledFrom([]string{"seed", "restart", "notarized", "seed", "restart"}).Draw(t, "priorKind")}
+				if st.Kind != "restart" {
+					st.Seed = rapid.Int64().Draw(t, "priorSeed")
+				}
+				prior = append(prior, st)
+			}
+			finalByBlock = rapid.Bool().Draw(t, "finalByBlock")
+		}
+		build := func(order []int, reAdd bool, prior []priorStep) (*node.Pool, *Round) {
 			p := node.NewPool(node.NodeTypeMiner)
 			for _, i := range order {
 				if err := p.AddNode(vMiner(i)); err != nil {
@@ -145,12 +163,36 @@ func TestC35_Ranking(t *testing.T) {
 				}
 			}
 			r := vNewRound(7)
+			{
+				for _, ps := range prior {
+					switch ps.Kind {
+					case "seed":
+						r.SetRandomSeed(ps.Seed, p.Size())
+					case "notarized":
+						r.SetRandomSeedForNotarizedBlock(ps.Seed, p.Size())
+					case "restart":
+						if err := r.Restart(); err != nil {
+							t.Fatalf("VERIF-HARNESS-ERROR Restart: %v", err)
+						}
+					}
+				}
+				if r.HasRandomSeed() && r.GetRandomSeed() != seed {
+					if finalByBlock {
+						r.SetRandomSeedForNotarizedBlock(seed, p.Size())
+					} else if err := r.Restart(); err != nil {
+						t.Fatalf("VERIF-HARNESS-ERROR Restart: %v", err)
+					}
+				}
+			}
 			r.SetRandomSeed(seed, p.Size())
+			if r.GetRandomSeed() != seed {
+				t.Fatalf("%s", vkit.Violation("C35", "seed-not-taken", "round seed is %d after setting %d (prior %v)", r.GetRandomSeed(), seed, prior))
+			}
 			return p, r
 		}
 		reAdd := rapid.Bool().Draw(t, "reAdd")
-		p1, r1 := build(idx, false)
-		p2, r2 := build(order2, reAdd)
+		p1, r1 := build(idx, false, nil)
+		p2, r2 := build(order2, reAdd, prior)
 		ranks1 := map[string]int{}
 		seen := map[int]bool{}
 		for _, nd := range p1.CopyNodes() {
@@ -163,7 +205,7 @@ func TestC35_Ranking(t *testing.T) {
 		}
 		for _, nd := range p2.CopyNodes() {
 			if rk := r2.GetMinerRank(nd); rk != ranks1[nd.GetKey()] {
-				t.Fatalf("%s", vkit.Violation("C35", "rank-depends-on-insertion-order", "miner %s has rank %d in one pool and %d in the other (seed %d, orders %v / %v)", nd.GetKey()[:8], ranks1[nd.GetKey()], rk, seed, idx, order2))
+				t.Fatalf("%s", vkit.Violation("C35", "rank-depends-on-insertion-order", "miner %s has rank %d on one node and %d on the other (seed %d, orders %v / %v, earlier life of the round on the second node %v)", nd.GetKey()[:8], ranks1[nd.GetKey()], rk, seed, idx, order2, prior))
 			}
 		}
 		// GetMinersByRank must order the same way on both nodes
@@ -176,10 +218,13 @@ func TestC35_Ranking(t *testing.T) {
 		}
 		st.Case()
 		differ := fmt.Sprint(idx) != fmt.Sprint(order2)
-		nt := n >= 3 && differ
+		nt := n >= 3 && (differ || len(prior) > 0)
 		st.Class("ranking_case")
+		if len(prior) > 0 {
+			st.Class("ranking_second_node_has_earlier_life")
+		}
 		if nt {
-			st.NonTrivial("rank", n, seed, fmt.Sprint(idx), fmt.Sprint(order2))
+			st.NonTrivial("rank", n, seed, fmt.Sprint(idx), fmt.Sprint(order2), fmt.Sprint(prior))
 		}
 		if st.WantSample(false) {
 			keys := make([]string, 0, n)
@@ -187,7 +232,7 @@ func TestC35_Ranking(t *testing.T) {
 				keys = append(keys, fmt.Sprintf("%s:%d", k[:6], v))
 			}
 			sort.Strings(keys)
-			st.Sample(false, map[string]interface{}{"kind": "ranking", "seed": seed, "order1": idx, "order2": order2, "ranks": keys})
+			st.Sample(false, map[string]interface{}{"kind": "ranking", "seed": seed, "order1": idx, "order2": order2, "prior": fmt.Sprint(prior), "ranks": keys})
 		}
 	})
 }
